@@ -13,6 +13,12 @@ CLAIMED = {
  "C09": ("TLC linearizability validation (LinStack) of histories of the real stacks", "Histories of Treiber stacks (HP/DHP, value/intrusive, elimination arrays 1,2,4 static and dynamic) and FCStack (elimination on/off) are validated by TLC against the sequential LIFO specification.", "6/C09"),
  "C10": ("TLC linearizability validation (LinDeque) of histories of the real FCDeque", "Histories of FCDeque (std::deque and boost deque, elimination on/off, combine pass count 1,2,3,4,8) under mixed-end programs are validated by TLC against the sequential deque specification.", "6/C10"),
  "C11": ("TLC linearizability validation (LinPQ) of histories of the real priority queues", "FCPriorityQueue histories must be linearizable to the max-priority queue; MSPriorityQueue histories to a bag with the capacity clause, and to the priority queue whenever TLC's history predicate finds no push overlapping a pop.", "6/C11"),
+ "C04": ("TLA+ RcuSafety oracle (TLC trace validation) over controlled executions of the four real URCU flavours", "Every recorded execution of general_instant/buffered/threaded and signal_buffered (capacities 1, 2, 4, 256; real dispose thread and deterministic signal delivery under vsched) is validated by TLC against RcuSafety: no dispose while a reader that was inside its critical section at retire time is still inside, synchronize() returns only after pre-existing readers left, no deref of a disposed object. Tiny two-thread programs are explored exhaustively by DFS with pre-emption bound 3 (finds the single-flip grace-period mutant).", "6/C04"),
+ "C05": ("TLA+ RcuSafety oracle, exactly-once clauses, over controlled executions of the four URCU flavours", "TLC validates that each retired object is disposed exactly once and no later than destruction of the RCU singleton, for retire / batch_retire / synchronize counts around the buffer capacity (including capacity 1 and overflow).", "6/C05"),
+ "C25": ("TLC: lemmas + width-16 transcriptions exhaustively, splitter state machines for all cut sequences, TLC validation of recorded I/O cases; C++ 32-bit sweep against TLC-emitted tables", "Reference definitions in TLA+ (BitRef); limb-composition lemmas and the SWAR / binary-search / popcount algorithms transcribed at width 16 are proved for all 2^16 inputs by TLC; the three splitters are state machines checked for every cut sequence over 8/16-bit sources; >10^5 recorded cases of the real 32/64-bit functions and splitters are validated by TLC on 16-bit limbs; the 32-bit functions are swept (strided in quick, all 2^32 in thorough) against the 16-bit tables TLC emits.", "6/C25"),
+ "C26": ("TLC model of the counter for all inc/dec walks + TLC validation of recorded walks of the real counter", "BitRevCounter.tla transcribes inc/dec; TLC explores every walk up to 255 (quick) / 16383 (thorough) and shows the state is a function of the count (Hunt's slot formula), dec undoes inc, slots distinct, in level, parent occupied. Recorded walks of the real counter (linear sweep to 70000 / 2^20 and random Dyck-like walks) are validated record by record. The literal statement of C26 is false by design and reported as a KNOWN-FINDING.", "6/C26"),
+ "C27": ("TLC exhaustive at word widths 4..10 for all hashes x all table sizes + TLC validation of recorded 64-bit cases on limbs", "SplitOrder.tla proves parity, parent-before-child and bucket contiguity for every hash and every table size at small word widths, and validates recorded outputs of the real regular_hash/dummy_hash (three reversal algorithms) and bucket_no/parent_bucket (HP, nogc, RCU split lists) for structured and random 64-bit hashes and all k in 0..63.", "6/C27"),
+ "C28": ("TLC enumeration of all 2108 configurations + validation of the real metrics::make output", "FeldmanMetrics.tla transcribes metrics::make; TLC checks for every configuration that the normalised layout consumes the hash bits exactly with at least one bit per level and that slot paths of 8-bit hashes are injective; the real metrics::make output for every configuration is validated against the transcription.", "6/C28"),
 }
 
 
